@@ -133,7 +133,7 @@ pub fn group_diff_ops(mut ops: Vec<DiffOp>, n: usize) -> Vec<Vec<DiffOp>> {
         {
             // End the current group and start a new one whenever
             // there is a large range with no changes.
-            if len > n * 2 {
+            if len > n.saturating_mul(2) {
                 pending_group.push(DiffOp::Equal {
                     old_index,
                     new_index,
